@@ -19,6 +19,10 @@ type callSite struct {
 	in     ssa.Instruction
 }
 
+// ExtraTargets, when set, resolves dynamic calls (interface invokes, function
+// values) to possible callees, e.g. from a VTA call graph.
+var ExtraTargets func(in ssa.Instruction) []*ssa.Function
+
 // callTargets returns the functions (within set) that instruction in may
 // transfer control to synchronously: static callee, immediately applied
 // literal, or the literal handed to sync.Once.Do.
@@ -42,6 +46,12 @@ func callTargets(in ssa.Instruction, set map[*ssa.Function]bool) []*ssa.Function
 		}
 	} else if cl := ClosureArg(c.Value); cl != nil && set[cl] {
 		out = append(out, cl)
+	} else if ExtraTargets != nil {
+		for _, t := range ExtraTargets(in) {
+			if set[t] {
+				out = append(out, t)
+			}
+		}
 	}
 	return out
 }
